@@ -148,6 +148,19 @@ def checks(tier):
                         for bounded in ((False, True) if (th or ctor == "hebbian") else (False,)):
                             split.append(dict(trainer=trainer, trace=mode, signs=cell_signs, ctor_signs=ctor, cell="dense", B=(1 if sg == "tensor" else 2),
                                               reduction="sum", dt=1.0, T=3, signal=sg, per_step=True, bounded=bounded))
+    # other cell kinds: direct, lateral, convolutional (weight shared over receptive fields), delayed dense
+    for trainer in ("stdp", "triplet", "mstdp", "mstdpet"):
+        for cell_signs in (signs if th else ("hebbian", "antihebbian")):
+            for cell in ("direct", "lateral", "conv", "dense-delayed"):
+                if cell == "dense-delayed" and trainer == "mstdpet":
+                    continue
+                c = dict(trainer=trainer, trace="cumulative", signs=cell_signs, ctor_signs=("depressive" if cell_signs == "hebbian" else "hebbian"), cell=cell.split("-")[0], B=2,
+                         reduction="sum", dt=1.0, T=3, signal=("-" if trainer in ("stdp", "triplet") else "scalar-"), per_step=True, bounded=False)
+                if cell == "conv":
+                    c.update(geom=(2, 3, 1, 2, 2))
+                if cell == "dense-delayed":
+                    c.update(maxdelay=2.0, delaysteps=[[0, 1], [2, 1]], delayed=True)
+                split.append(c)
     da = []
     for variant in ("da-stdp", "da-stdpd", "da-kernel", "da-kerneld", "kernel", "da-mstdp", "da-mstdpd"):
         for sg in C18.SIGNS:
@@ -165,7 +178,7 @@ def checks(tier):
 
 BOUNDS = {
     "quick": {"trainers": "STDP, TripletSTDP, MSTDP, MSTDPET (constructor sign mode x per-cell override sign mode), 7 kernel/delay-adjusted variants x 4 sign modes, LinearHomeostasis on weight/bias/delay",
-              "T": 3, "cells": "dense 2x2", "batch": [1, 2], "bounding": "none and multiplicative upper/lower (limits +-3)"},
+              "T": 3, "cells": "dense 2x2 (also with per-synapse delays), direct 2, lateral 2, Conv2D 2x3 input / 1x2 kernel / 2 filters", "batch": [1, 2], "bounding": "none and multiplicative upper/lower (limits +-3)"},
     "thorough": {"trace modes": 2, "all 16 constructor/override sign combinations with and without bounding": True, "T": 4},
 }
-OUTSIDE = ["conv, lateral and direct cells", "homeostasis targets given as tensors"]
+OUTSIDE = ["kernel / delay-adjusted trainers on cells other than dense", "homeostasis targets given as tensors"]
